@@ -6,6 +6,14 @@ HERE = os.path.dirname(os.path.dirname(os.path.abspath(__file__)))
 
 # id -> (category, technique, text, note)
 CLAIMED = {
+ "C11": ("other", "provenance of the metadata carried through each resampling/reduction, table-backed folding of the (matrix index, Cartesian axis) pair, polynomial normal form of the conservative factor, def-use slice of the coarsening step, option-chain binding lint (ast)",
+         "Narrow claim. Decided: resize / refinement / equalisation keep dimensions and origin; axis reduction removes the dimension and "
+         "origin component of the same axis under either spelling (table-backed, dims 2-3); extrusion prepends the height on matrix axis 0; "
+         "sum/average are np.sum over the reduced axis (divided by its extent); the conservative factor is input voxels / output voxels "
+         "applied after the channel merge; every value computed for coarsening flows into the result and lengths come from the running "
+         "array; every interpolation option binds its flag. Not decided: equality of integrals before/after (cv2.resize / warpPerspective "
+         "arithmetic; exact conservation for non-constant data on odd extents), superposition equals addition.",
+         "Trusted: python ast parser; sa/fold.py, sa/algebra.py. Several obligations compare normalised statement text of the anchored functions."),
  "C14": ("other", "symbolic folding of the dofs guard chains over their finite documented domain, polynomial normal forms of label-wise vs homogeneous formulas and of numba summands vs kernel definitions, exhaustive folding of the polynomial index decoding (ast)",
          "Decides: every documented dofs value (None, 'all', every sub-list in both orders) of the five model classes reaches exactly one "
          "update call with the parameter slots routed in declaration order; combined models compose sequentially and consume parameters "
